@@ -165,3 +165,11 @@ func vTier() int {
 
 // vOverride is a no-op natively: replays always run the real callee.
 func vOverride(name string, fn interface{}) {}
+
+func vNondetBigRange(name string, lo, hi *big.Int) *big.Int {
+	v := vLookup(name)
+	if v.Cmp(lo) < 0 || v.Cmp(hi) > 0 {
+		panic(vAssumeFailed{"range " + name})
+	}
+	return v
+}
